@@ -4,7 +4,7 @@
     PartialEq/Ord/Hash impls) and the dispatcher of the [z.*] ops.  No proofs here. *)
 From Coq Require Import ZArith List Bool String.
 From V Require Import Base.Int Base.IO Gen.DateTimeConsts Model.TimeDelta.
-From V Require Model.Date Model.Time Model.Show.
+From V Require Model.Date Model.Time Model.Show Model.DateExtra Model.C01.
 From V Require Export Model.DateTime.
 Import ListNotations.
 Open Scope Z_scope.
@@ -67,6 +67,45 @@ Fixpoint keys_eqb (a b : list Z) : bool :=
   | x :: a', y :: b' => (x =? y) && keys_eqb a' b'
   | _, _ => false
   end.
+
+(** * impl Add<Months> / Sub<Months> for DateTime<Tz>: [checked_{add,sub}_months(rhs).expect(..)] *)
+Definition dz_op_add_months (a : dtz) (m : Z) : R dtz := unwrap_r (dz_checked_add_months a m).
+Definition dz_op_sub_months (a : dtz) (m : Z) : R dtz := unwrap_r (dz_checked_sub_months a m).
+(** [From<DateTime<FixedOffset>> for DateTime<Utc>]: [src.with_timezone(&Utc)];
+    [From<DateTime<Utc>> for DateTime<FixedOffset>]: [src.with_timezone(&FixedOffset::east_opt(0).unwrap())] *)
+Definition dz_into_utc (a : dtz) : dtz := with_timezone a 0.
+Definition dz_utc_into_fixed (a : dtz) : R dtz := let* o := unwrap (east_opt 0) in Val (with_timezone a o).
+(** [PartialOrd<DateTime<Tz2>>]: [self.datetime.partial_cmp(&other.datetime)] (derived on NaiveDateTime:
+    always [Some]); [lt]/[le]/[gt]/[ge] are the provided methods reading [partial_cmp];
+    [PartialEq<DateTime<Tz2>>]: [self.datetime == other.datetime]; [ne] = [!eq] *)
+Definition dz_partial_cmp (a b : dtz) : option Z := Some (ndt_cmp (dz_utc a) (dz_utc b)).
+Definition pc_lt (o : option Z) : bool := match o with Some c => c =? -1 | None => false end.
+Definition pc_le (o : option Z) : bool := match o with Some c => (c =? -1) || (c =? 0) | None => false end.
+Definition pc_gt (o : option Z) : bool := match o with Some c => c =? 1 | None => false end.
+Definition pc_ge (o : option Z) : bool := match o with Some c => (c =? 1) || (c =? 0) | None => false end.
+Definition dz_pcmp_obs (x y : dtz) : val :=
+  let yu := dz_to_utc y in
+  let p := dz_partial_cmp x y in let pu := dz_partial_cmp x yu in
+  VTup [val_of_option VInt p; val_of_option VInt pu; val_of_bool (dz_eqb x yu); val_of_bool (negb (dz_eqb x y));
+        val_of_bool (pc_lt p); val_of_bool (pc_le p); val_of_bool (pc_gt p); val_of_bool (pc_ge p);
+        val_of_bool (pc_lt pu); val_of_bool (pc_ge pu)].
+(** [FixedOffset::utc_minus_local]: [-self.local_minus_utc] *)
+Definition fo_utc_minus_local (off : Z) : R Z := neg_i32 off.
+(** provided methods of Datelike / Timelike (src/traits.rs) on DateTime<Tz>: they read the accessors
+    above, i.e. the fields of [overflowing_naive_local] *)
+Definition dz_prov (a : dtz) : R val :=
+  let* l := overflowing_naive_local a in
+  let d := nd_date l in
+  let* yce := DateExtra.d_year_ce d in
+  let* q := DateExtra.d_quarter d in
+  let* dn := C01.datelike_num_days_from_ce (ndt_year l) (ndt_ordinal l) in
+  let* dim := DateExtra.d_num_days_in_month d in
+  let '(pm, h12) := Time.hour12 (nd_time l) in
+  let* nsfm := add_u32 (ndt_hour l * 3600 + ndt_minute l * 60) (ndt_second l) in
+  let* iw := ndt_iso_week l in
+  let* w0 := Date.iw_week0 iw in
+  Val (VTup [val_of_bool (fst yce); VInt (snd yce); VInt q; VInt dn; VInt dim; val_of_bool pm; VInt h12;
+             VInt nsfm; VInt w0]).
 
 (** * Dispatcher *)
 Definition dz_acc (a : dtz) : R val :=
@@ -170,5 +209,45 @@ Definition run (op : bytes) (args : list val) : val :=
             | Some h, Some mi, Some s => val_of_R v_mlt (with_ymd_and_hms off y m d h mi s)
             | _, _, _ => VBad end
         | _, _, _, _ => VBad end
+    | _ => VBad end
+  else if op_is op "z.opmonths" then
+    match args with
+    | [a; VInt sign; n] =>
+        match dec_dtz a, arg_u32 n with
+        | Some x, Some k =>
+            if sign =? 1 then val_of_R enc_dtz (dz_op_add_months x k)
+            else if sign =? -1 then val_of_R enc_dtz (dz_op_sub_months x k) else VBad
+        | _, _ => VBad end
+    | _ => VBad end
+  else if op_is op "z.conv" then
+    z_1 (fun x => let u := dz_into_utc x in val_of_R (fun f => VTup [enc_dtz u; enc_dtz f]) (dz_utc_into_fixed u))
+  else if op_is op "z.pcmp" then z_2 dz_pcmp_obs
+  else if op_is op "z.uml" then
+    match args with
+    | [o] => match arg_off o with
+             | Some off => val_of_R (fun u => VTup [VInt u; VInt off]) (fo_utc_minus_local off)
+             | None => VBad end
+    | _ => VBad end
+  else if op_is op "z.prov" then z_1 (fun x => val_of_R (fun v => v) (dz_prov x))
+  (* FixedOffset::east / west (deprecated): east_opt(secs).expect(..) / west_opt(secs).expect(..) *)
+  else if op_is op "z.peast" then
+    match args with [a] => match arg_i32 a with Some s => val_of_R VInt (unwrap (east_opt s)) | None => VBad end | _ => VBad end
+  else if op_is op "z.pwest" then
+    match args with [a] => match arg_i32 a with Some s => val_of_R VInt (unwrap_r (west_opt s)) | None => VBad end | _ => VBad end
+  (* DateTime::from_naive_utc_and_offset / from_utc (deprecated): DateTime { datetime, offset };
+     timezone(): TimeZone::from_offset(&self.offset), for FixedOffset the offset itself *)
+  else if op_is op "z.mk" then
+    match args with
+    | [o; n] => match arg_off o, dec_ndt n with
+                | Some off, Some u => let z := mk_dtz u off in VTup [enc_dtz z; VInt (dz_off z); enc_dtz z]
+                | _, _ => VBad end
+    | _ => VBad end
+  (* DateTime::from_local (deprecated): let datetime_utc = datetime - offset.fix() (the panicking operator) *)
+  else if op_is op "z.pfromlocal" then
+    match args with
+    | [o; n] => match arg_off o, dec_ndt n with
+                | Some off, Some l =>
+                    val_of_R enc_dtz (let* u := unwrap_r (ndt_checked_sub_offset l off) in Val (mk_dtz u off))
+                | _, _ => VBad end
     | _ => VBad end
   else VErr B"NOOP".
